@@ -424,10 +424,14 @@ func (r *Router) RunHandlers(ctx context.Context) error {
 			continue
 		}
 
-		if err := r.decorateHandlerPublisher(h); err != nil {
+		// The decorated publisher and subscriber replace the handler's own ones only once the handler is started:
+		// when a decorator or Subscribe fails, the next RunHandlers call must not decorate the decorated ones again.
+		publisher, err := r.decorateHandlerPublisher(h)
+		if err != nil {
 			return errors.Wrapf(err, "could not decorate publisher of handler %s", name)
 		}
-		if err := r.decorateHandlerSubscriber(h); err != nil {
+		subscriber, err := r.decorateHandlerSubscriber(h)
+		if err != nil {
 			return errors.Wrapf(err, "could not decorate subscriber of handler %s", name)
 		}
 
@@ -440,12 +444,14 @@ func (r *Router) RunHandlers(ctx context.Context) error {
 
 		ctx, cancel := context.WithCancel(ctx)
 
-		messages, err := h.subscriber.Subscribe(ctx, h.subscribeTopic)
+		messages, err := subscriber.Subscribe(ctx, h.subscribeTopic)
 		if err != nil {
 			cancel()
 			return errors.Wrapf(err, "cannot subscribe topic %s", h.subscribeTopic)
 		}
 
+		h.publisher = publisher
+		h.subscriber = subscriber
 		h.messagesCh = messages
 		h.started = true
 
@@ -715,23 +721,22 @@ func (h *Handler) Stopped() chan struct{} {
 
 // decorateHandlerPublisher applies the decorator chain to handler's publisher.
 // They are applied in reverse order, so that the later decorators use the result of former ones.
-func (r *Router) decorateHandlerPublisher(h *handler) error {
+func (r *Router) decorateHandlerPublisher(h *handler) (Publisher, error) {
 	var err error
 	pub := h.publisher
 	for i := len(r.publisherDecorators) - 1; i >= 0; i-- {
 		decorator := r.publisherDecorators[i]
 		pub, err = decorator(pub)
 		if err != nil {
-			return errors.Wrap(err, "could not apply publisher decorator")
+			return nil, errors.Wrap(err, "could not apply publisher decorator")
 		}
 	}
-	r.handlers[h.name].publisher = pub
-	return nil
+	return pub, nil
 }
 
 // decorateHandlerSubscriber applies the decorator chain to handler's subscriber.
 // They are applied in regular order, so that the later decorators use the result of former ones.
-func (r *Router) decorateHandlerSubscriber(h *handler) error {
+func (r *Router) decorateHandlerSubscriber(h *handler) (Subscriber, error) {
 	var err error
 	sub := h.subscriber
 
@@ -744,17 +749,16 @@ func (r *Router) decorateHandlerSubscriber(h *handler) error {
 	}
 	sub, err = MessageTransformSubscriberDecorator(messageTransform)(sub)
 	if err != nil {
-		return errors.Wrapf(err, "cannot wrap subscriber with context decorator")
+		return nil, errors.Wrapf(err, "cannot wrap subscriber with context decorator")
 	}
 
 	for _, decorator := range r.subscriberDecorators {
 		sub, err = decorator(sub)
 		if err != nil {
-			return errors.Wrap(err, "could not apply subscriber decorator")
+			return nil, errors.Wrap(err, "could not apply subscriber decorator")
 		}
 	}
-	r.handlers[h.name].subscriber = sub
-	return nil
+	return sub, nil
 }
 
 // addHandlerContext enriches the context with values that are relevant within this handler's context.
